@@ -392,6 +392,14 @@ fn cmd_run(id: &str, tier: &str) -> i32 {
         let (class, detail) = match check.replay(&min_case, Some(&mut log)) {
             Ok(Some((c, d))) => (c, d),
             other => {
+                // the violation seen during exploration does not follow from its own case alone:
+                // it may depend on what earlier calls left behind in the process
+                if let Some(path) = history_fallback(check.as_ref(), tier, seed, v) {
+                    println!("VIOLATION property={} replay={}", id, path);
+                    println!("#   class={} episode={} detail={} [process history]", v.class, v.episode, v.detail);
+                    reported += 1;
+                    continue;
+                }
                 println!("# harness error: minimised case of class {class0} (episode {}) no longer violates in-process: {other:?}", v.episode);
                 harness_error = true;
                 continue;
@@ -428,8 +436,15 @@ fn cmd_run(id: &str, tier: &str) -> i32 {
                 reported += 1;
             }
             other => {
-                println!("# harness error: replay of {path} did not reproduce class {class} in a fresh process (got {other:?})");
-                harness_error = true;
+                let _ = std::fs::remove_file(&path);
+                if let Some(hpath) = history_fallback(check.as_ref(), tier, seed, v) {
+                    println!("VIOLATION property={} replay={}", id, hpath);
+                    println!("#   class={} episode={} detail={} [process history]", v.class, v.episode, v.detail);
+                    reported += 1;
+                } else {
+                    println!("# harness error: replay of {path} did not reproduce class {class} in a fresh process (got {other:?})");
+                    harness_error = true;
+                }
             }
         }
     }
@@ -445,6 +460,71 @@ fn cmd_run(id: &str, tier: &str) -> i32 {
     } else {
         println!("# verdict: held on everything explored");
         0
+    }
+}
+
+/// A violation that its explicit case does not reproduce in a fresh process may depend on state
+/// that earlier calls left behind in the process (a static, a thread-local, a lazily initialised
+/// table).  Episodes are deterministic, so the history that matters is a range of episodes run in
+/// order on one thread: find the shortest suffix ending at the violating episode that reproduces
+/// the class in a fresh process, and report that range as the replay file.
+fn history_fallback(check: &dyn Check, tier: Tier, seed: u64, v: &Violation) -> Option<String> {
+    let id = check.id();
+    let k = v.episode;
+    let started = std::time::Instant::now();
+    let mut back = 0u64;
+    loop {
+        let lo = k.saturating_sub(back);
+        let file = J::obj()
+            .set("format", 1)
+            .set("property", id)
+            .set("verif_seed", seed)
+            .set("episode", k)
+            .set("minimised", false)
+            .set("history", J::obj().set("tier", tier.name()).set("from", lo).set("to", k).set("workers", 1u64))
+            .set(
+                "violation",
+                J::obj().set("class", v.class.as_str()).set("detail", format!("{} -- not reproduced by the case alone: it depends on what earlier calls left behind in the process; replay re-runs episodes {lo}..={k} in order on one thread of a fresh process", v.detail)),
+            )
+            .set("case", v.case.clone())
+            .set("provenance", v.provenance.clone());
+        let path = write_replay(id, seed, &file);
+        if let Some((1, c)) = fresh_replay(&path) {
+            if check.same_class(&c, &v.class) {
+                return Some(path);
+            }
+        }
+        let _ = std::fs::remove_file(&path);
+        if lo == 0 || started.elapsed().as_secs() > 600 {
+            return None;
+        }
+        back = back * 2 + 1;
+    }
+}
+
+/// Replay of a process-history file: the recorded episode range, in order, on one thread.
+fn replay_history(check: &dyn Check, file: &J, path: &str) -> i32 {
+    let id = check.id();
+    let Ok(h) = file.obj_of("history") else { return 2 };
+    let num = |k: &str| h.get(k).and_then(|v| v.as_u64());
+    let (Some(from), Some(to)) = (num("from"), num("to")) else {
+        println!("# harness error: {path}: history without from/to");
+        return 2;
+    };
+    let tier = if h.str_of("tier").map(|t| t == "thorough").unwrap_or(false) { Tier::Thorough } else { Tier::Quick };
+    let seed = file.get("verif_seed").and_then(|v| v.as_u64()).unwrap_or(1);
+    let want = file.obj_of("violation").ok().and_then(|v| v.str_of("class").ok().map(|s| s.to_string())).unwrap_or_default();
+    let out = explore_range(check, seed, tier, from, to + 1, 1, env_u64("VERIF_HANG_SECS", 60), None);
+    match out.violations.iter().find(|x| want.is_empty() || check.same_class(&x.class, &want)) {
+        Some(x) => {
+            println!("VIOLATION property={} replay={}", id, path);
+            println!("#   class={} detail=episode {} of the history {}..={}: {}", x.class, x.episode, from, to, x.detail);
+            1
+        }
+        None => {
+            println!("# replay of {path}: property {id} holds on this history ({} episodes)", to + 1 - from);
+            0
+        }
     }
 }
 
@@ -482,6 +562,9 @@ fn cmd_replay(path: &str) -> i32 {
         println!("# harness error: unknown property {id}");
         return 2;
     };
+    if file.get("history").is_some() {
+        return replay_history(check.as_ref(), &file, path);
+    }
     // run the case on a thread so that a hang can be reported
     let hang_secs = env_u64("VERIF_HANG_SECS", 60);
     let (tx, rx) = std::sync::mpsc::channel();
